@@ -69,7 +69,7 @@ m('c05-tokenwriter-lock-leak', 'C05', 'session.go', '''	if lwc.broken {
 seeded('c05-seeded-1-pooled-buffer', 'C05', 'C05-1')
 seeded('c05-seeded-2-flush-outside-lock', 'C05', 'C05-2')
 seeded('c05-seeded-3-flush-resets-depth', 'C05', 'C05-3')
-for _i in range(4, 10):
+for _i in range(4, 13):
     seeded('c05-seeded-%d' % _i, 'C05', 'C05-%d' % _i)
 m('c05-harmless-attr-order', 'C05', 'session.go', '''			if f := se.from.String(); f != "" && !foundFrom {
 				tok.Attr = append(tok.Attr, xml.Attr{
@@ -198,7 +198,7 @@ m('c10-seeded-1-bit-after-write', 'C10', 'session.go', '''	s.state |= OutputStre
 	return err''')
 seeded('c10-seeded-2-deadline-derived', 'C10', 'C10-2')
 seeded('c10-seeded-3-close-without-lock', 'C10', 'C10-3')
-for _i in range(4, 10):
+for _i in range(4, 13):
     seeded('c10-seeded-%d' % _i, 'C10', 'C10-%d' % _i)
 m('c10-harmless-helper', 'C10', 'session.go', '''func (s *Session) outputClosed() bool {
 	s.stateMutex.RLock()
@@ -303,6 +303,34 @@ func watchCtx(ctx context.Context, set func(time.Time) error) context.CancelFunc
 ''', 'harmless')
 # round 5: the encoder's address read from the field LocalAddr returns (harmless)
 m('c05-harmless-from-field', 'C05', 'session.go', '''		se.from = s.LocalAddr()''', '''		se.from = s.in.Info.To''', 'harmless')
+
+# round 6 (harmless): Close of a token writer handle spelled differently; Serve's test for the peer's close as an if
+m('c05-harmless-close-spelling', 'C05', 'session.go', '''	if err := lwc.Flush(); err != nil {
+		lwc.err = err
+		return err
+	}
+	lwc.err = io.EOF
+	return nil
+}''', '''	err := lwc.Flush()
+	lwc.err = err
+	if err == nil {
+		lwc.err = io.EOF
+	}
+	return err
+}''', 'harmless')
+m('c10-harmless-serve-if', 'C10', 'session.go', '''		switch err {
+		case nil:
+			// No error and no sentinal error telling us to shut down; try again!
+		case io.EOF:
+			return nil
+		default:
+			return s.sendError(err)
+		}''', '''		if err == io.EOF {
+			return nil
+		}
+		if err != nil {
+			return s.sendError(err)
+		}''', 'harmless')
 
 env = dict(os.environ, GOFLAGS='-mod=mod', GOPROXY='off', GOSUMDB='off', GOTOOLCHAIN='local')
 
